@@ -24,11 +24,7 @@ theorem lineA_modify_dpin (ls : Array LineD) (x0 y c : Nat) :
   · have : ¬ y = x0 := fun x => e x.symm
     simp [e, this]
 
-theorem renumberDpins_size : ∀ (outs : List (Option Nat)) (ls : Array LineD) (k0 : Nat), (renumberDpins ls outs k0).size = ls.size
-  | [], _, _ => rfl
-  | none :: rest, ls, k0 => by simp only [renumberDpins]; exact renumberDpins_size rest ls _
-  | some x :: rest, ls, k0 => by
-    simp only [renumberDpins]; rw [renumberDpins_size rest]; simp
+-- `renumberDpins_size` (the line table keeps its size) is in Proofs/Substitute.lean
 
 /-- only `dpin` changes -/
 theorem renumberDpins_fields : ∀ (outs : List (Option Nat)) (ls : Array LineD) (k0 y : Nat),
